@@ -215,7 +215,9 @@ def read_registry(path=None):
         if name.endswith("-"):
             val = parse_expr(parts[1])
             sp = [name[:-1]] + [p.rstrip("-") for p in parts[2:] if p not in ("_", "")]
-            R["prefixes"][name[:-1]] = {"value": val.scale, "spellings": sp}
+            # third field: the symbol ("_" = none); further fields: aliases
+            sym = parts[2].rstrip("-") if len(parts) > 2 and parts[2] not in ("_", "") else None
+            R["prefixes"][name[:-1]] = {"value": val.scale, "spellings": sp, "symbol": sym, "aliases": [p.rstrip("-") for p in parts[3:] if p not in ("_", "")]}
             continue
         rhs, mods = parts[1], {}
         if ";" in rhs:
